@@ -104,6 +104,21 @@ def run(ck: Check) -> None:
         if n:
             cases.append(Case("vgpg", [e, k.hex, data[:-1]], tag="payload-shortened", group=1000 + i))
             want.append("E InvalidSignature")
+    # directed: hashed areas stating lifetimes that are long over / not yet begun / zero, plainly and marked critical (gpg --default-sig-expire,
+    # --ask-sig-expire, faked clocks): the library documents that it disregards OpenPGP expiry, so each is valid like any other well-signed entry
+    fpr = b"\x04" + bytes(range(20))
+    for j, (created, life, typ) in enumerate([(1594619205, 1, 3), (1594619205, 86400, 0x83), (1, 1, 3), (0xFFFFFF00, 60, 3), (1594619205, 0, 3), (1594619205, 0xFFFFFFFF, 3),
+                                              (1594619205, 1, 9), (1594619205, 1, 0x89), (0, 0, 3)]):
+        for order in (0, 1):
+            subs = [gen._subpacket(33, fpr), gen._subpacket(2, struct.pack(">I", created)), gen._subpacket(typ, struct.pack(">I", life))]
+            if order:
+                subs = [subs[2], subs[0], subs[1]]
+            area = b"".join(subs)
+            hdr = bytes([4, 0, 22, 8]) + struct.pack(">H", len(area)) + area
+            k = gen.key(j % 10)
+            data = gen.oracle_bytes({"directed": j})
+            cases.append(Case("vgpg", [gen.gpg_entry(k, data, hdr), k.hex, data], tag="valid-stated-lifetime", group=1500 + j))
+            want.append("OK")
     # signatures whose first octet(s) are zero, presented as an OpenPGP MPI would carry them (leading zero octets dropped): not 64 bytes, not a signature
     found = 0
     for j in range(4000):
